@@ -229,6 +229,33 @@ def check_builder_chunk(seq):
     return None
 
 
+def check_set_epochs_iterables():
+    """the schedule handed to EngineBuilder.set_epochs as a list, a tuple, an iterator and a generator (set_epochs takes an Iterable): the whole schedule
+    arrives, invalid schedules are rejected, a valid one with two posterior epochs is accepted"""
+    import itertools
+    import liesel.goose as gs
+    good = [(0, 1, 1), (3, 6, 1), (4, 9, 3), (4, 12, 1)]
+    bad = [(0, 1, 1), (3, 6, 1), (4, 10, 3)]
+    wraps = {"list": list, "tuple": tuple, "iter": iter, "generator": lambda xs: (x for x in xs), "chain": lambda xs: itertools.chain(xs[:2], xs[2:])}
+    for how, w in wraps.items():
+        b = gs.EngineBuilder(seed=0, num_chains=1)
+        cfgs = [mk(c) for c in good]
+        try:
+            b.set_epochs(w(cfgs))
+            got = list(b.epochs)
+        except Exception as e:
+            return {"sig": "native::builder::set_epochs_iterable", "what": f"a valid schedule given as {how} is rejected: {type(e).__name__}: {str(e)[:100]}", "input": {"schedule": good, "iterable": how}}
+        if len(got) != len(cfgs) or any(g is not x for g, x in zip(got, cfgs)):
+            return {"sig": "native::builder::set_epochs_iterable", "what": f"a schedule of {len(cfgs)} epochs given as {how}: the builder holds {len(got)} of them", "input": {"schedule": good, "iterable": how}}
+        try:
+            b.set_epochs(w([mk(c) for c in bad]))
+            return {"sig": "native::builder::set_epochs_iterable", "what": f"an invalid schedule (posterior duration 10, thinning 3) given as {how} is accepted; the builder then holds {len(b.epochs)} epochs",
+                    "input": {"schedule": bad, "iterable": how}}
+        except RuntimeError:
+            pass
+    return None
+
+
 def bounded(tier, seed):
     rng = random.Random(seed)
     L = 4 if tier == "quick" else 5
@@ -311,6 +338,11 @@ def bounded(tier, seed):
                 d = rng.randint(1, 12)
                 s.append((rng.choice([1, 2, 3]), d, 1))
             scheds.append(s)
+    try:
+        add(check_set_epochs_iterables())
+    except Exception as e:
+        add({"sig": f"native::builder::exception::{type(e).__name__}", "what": str(e)[:200], "input": {"scenario": "set_epochs with iterables"}})
+    evals += 1
     for s in scheds:
         add(check_builder_chunk(s))
         evals += 1
@@ -321,7 +353,7 @@ def bounded(tier, seed):
         "distinct_nontrivial": distinct,
         "rule": (f"BOUNDED: every valid schedule prefix of <= {L} epochs over type 0..4 x duration 0..3 x thinning 0..3 "
                  f"({n_prefix} prefixes; quick tier samples 1/4 of the deepest layer) x every candidate append; next() on every prefix; "
-                 f"{n_att} seeded histories of 2-5 append attempts (valid and invalid mixed, optionally a next() after each) observed through next()/has_more() only; stan_epochs on {len(grid)} argument tuples (grid + seeded random, seed={seed}) and twice with equal arguments around an in-place edit of the first result; builder chunk on {len(scheds)} real builds. "
+                 f"{n_att} seeded histories of 2-5 append attempts (valid and invalid mixed, optionally a next() after each) observed through next()/has_more() only; stan_epochs on {len(grid)} argument tuples (grid + seeded random, seed={seed}) and twice with equal arguments around an in-place edit of the first result; builder chunk on {len(scheds)} real builds; set_epochs with the schedule as list / tuple / iterator / generator / chain. "
                  "A case is counted once per distinct (prefix, config) / argument tuple / schedule."),
         "samples": samples,
         "exhaustive": tier != "quick",
